@@ -45,7 +45,9 @@ Ctx0(pats) == [defs |-> VObj(<<>>), pre |-> "#/$defs/", suf |-> "", pats |-> pat
 DocBad(r, doc, schema, R, jsv) ==
   LET d == doc.v
       v == V3(d, schema, R, 8)
-      strict == M3(d, r.ty, r.env, {}, TRUE)
+      \* the type as compiled: a literal that the compiler truncates (C01 finding fractionalLiteralTruncated) is not a
+      \* member for the validator and the schema alike
+      strict == M3(d, r.ty, r.env, Open \cap {"fractionalLiteralTruncated"}, TRUE)
   IN (IF v # "X" /\ jsv \in {"T", "F"} /\ v # jsv THEN {"calibration-mismatch"} ELSE {})
      \cup (IF v = "T" /\ doc.val # "T" THEN {"schema-valid-but-validator-rejects"} ELSE {})
      \cup (IF v = "T" /\ doc.val = "T" /\ strict = "F" THEN {"schema-valid-with-undeclared-key"} ELSE {})
